@@ -268,6 +268,10 @@ pub fn c06(ctx: &Ctx) -> PropResult {
         let semi = format!("y <- 1\nl <- [1, 2]\nPROCEDURE f(q) {{\nRETURN q\n}}\n{a};{b}\nDISPLAY(\"end\")\n");
         cases.push(Case::new(Kind::Run, nl).tag("newline-ends-statement").aux(semi));
     }
+    // (appended, round 17) a text literal with raw line breaks as the last token of its line, then another statement
+    for (nl, semi) in crate::props6::multiline_literal_line_end_family() {
+        cases.push(Case::new(Kind::Run, nl).tag("newline-ends-statement").tag("multiline-literal").aux(semi));
+    }
     // (appended, round 16) a brace-less branch and its ELSE separated by blank lines, comments, `;`, CR LF, continuations
     for (v, canon) in crate::props6::unbraced_else_separations() {
         cases.push(Case::new(Kind::Run, v).tag("layout").tag("layout:else-separation").aux(canon));
